@@ -103,7 +103,7 @@ def main():
         sh("rm -rf /var/tmp/janet-verif-alt/%s" % hashlib.sha256(wt.encode()).hexdigest()[:10])
     dst = os.path.join(VERIF, "seeded", name)
     os.makedirs(dst, exist_ok=True)
-    for f in os.listdir(src):
+    for f in ([] if os.path.abspath(src) == os.path.abspath(dst) else os.listdir(src)):
         if f in ("test.log",):
             continue
         p = os.path.join(src, f)
